@@ -109,6 +109,7 @@ long vf_live_bytes(void);
 long vf_alloc_calls(void);           /* allocation-like calls since reset */
 void vf_fail_plan(long k1, long k2); /* fail the k1-th and k2-th allocation call (1-based; 0 = none) */
 int vf_fail_fired(void);
+const char *vf_fail_kinds(void);      /* one letter per injected failure: m malloc/strdup/vasprintf, c calloc, r realloc, l locale */
 extern int vf_quarantine;
 extern int vf_threaded; /* lock the allocator bookkeeping (free-running threads) */
 extern void (*vf_free_hook)(void *p, size_t size);
